@@ -73,7 +73,13 @@ type Explorer struct {
 	MaxViol  int
 	St       *Stats
 	stop     bool
-	sigSeen  map[string]bool
+	sigSeen map[string]bool
+	// SigSeen, if set, is shared between explorers of one job (dedup of violations by signature).
+	SigSeen map[string]bool
+	// Known, if set, tells which signatures are listed findings: they are recorded once and do not
+	// count towards MaxViol.
+	Known  func(sig string) bool
+	nKnown int
 }
 
 func (e *Explorer) classify(p PointRec, alt int) (kind string, cost int) {
@@ -147,6 +153,9 @@ func (e *Explorer) Explore() bool {
 		e.MaxViol = 3
 	}
 	e.sigSeen = map[string]bool{}
+	if e.SigSeen != nil {
+		e.sigSeen = e.SigSeen
+	}
 	e.explore(nil, nil, map[string]int{}, 0, 0)
 	return !e.stop
 }
@@ -217,7 +226,10 @@ func (e *Explorer) explore(prefix, prefixN []int, used map[string]int, total int
 				return
 			}
 			e.St.Violations = append(e.St.Violations, Violation{Desc: r.Violation, Signature: sig, Choices: trimZeros(choices), Ns: ns[:len(trimZeros(choices))], Outcome: clip(r.Outcome, 2000), Exec: e.St.Execs, Detail: r.Detail})
-			if len(e.St.Violations) >= e.MaxViol {
+			if e.Known != nil && e.Known(sig) {
+				e.nKnown++
+			}
+			if len(e.St.Violations)-e.nKnown >= e.MaxViol {
 				e.stop = true
 				e.St.Capped = "max-violations"
 				return
